@@ -15,7 +15,13 @@
 // view (targets outside B in the base's namespace, inside the view, relative
 // and climbing) which are then read and written through the wrapper and
 // through the view; same oracle, the reference being the reference's own Sub
-// view. No sampling.
+// view. Over a MemFS base, B (and the reference's root) holds relative
+// symbolic links made through the base: to a file, to a directory, dangling,
+// with "..", and the alphabet names them and goes through them. Variant
+// systems, reduced (ops.go): <fs>@<class> builds the wrapper with an unclean
+// but equivalent spelling of B and must behave as the clean one; MemFS+out-links
+// adds base-side links that leave B's namespace (absolute targets, relative
+// targets climbing above B). No sampling.
 //
 // Oracle on every call:
 //  1. everything outside B in the base (node-graph lines of VerifDump + exact
@@ -68,7 +74,7 @@ func factory(tier string) func(string) bfs.System {
 
 		ops := buildOps(tier)
 
-		return &sys{fsName: name, ops: ops, nAt: opsAtLevel(ops, len(tierSegs(tier)))}
+		return newSys(name, ops, opsAtLevel(ops, len(tierSegs(tier))))
 	}
 }
 
@@ -83,6 +89,7 @@ func main() {
 	tier := flag.String("tier", "quick", "")
 	depth := flag.Int("depth", 0, "history length bound (default: 2 quick, 3 thorough)")
 	systems := flag.String("systems", "MemFS,OrefaFS", "")
+	variants := flag.Bool("variants", true, "also explore, for every system, the base-path spellings (<fs>@<class>) and, over MemFS, the links leaving B (MemFS+out-links)")
 	replay := flag.String("replay", "", "re-execute a replay file and print what happens")
 
 	bench := flag.String("selfbench", "", "development aid: expand the initial state of the named base in-process; -prof writes a CPU profile")
@@ -161,6 +168,43 @@ func main() {
 		workers = 1
 	}
 
+	// The variants are small (one state at the first level, a handful at the
+	// next): two workers each, next to the main systems.
+	maxDepth := map[string]int{}
+	nWorkers := map[string]int{}
+
+	for _, sn := range sysNames {
+		maxDepth[sn], nWorkers[sn] = d, workers
+	}
+
+	if *variants {
+		for _, sn := range strings.Split(*systems, ",") {
+			if strings.ContainsAny(sn, "@+") {
+				continue
+			}
+
+			var vs []string
+
+			for _, sp := range basePathSpellings {
+				vs = append(vs, sn+"@"+sp.Class)
+			}
+
+			if sn == "MemFS" {
+				vs = append(vs, sn+"+out-links")
+				maxDepth[sn+"+out-links"] = 1
+			}
+
+			for _, v := range vs {
+				if maxDepth[v] == 0 {
+					maxDepth[v] = d
+				}
+
+				nWorkers[v] = 2
+				sysNames = append(sysNames, v)
+			}
+		}
+	}
+
 	for _, sn := range sysNames {
 		wg.Add(1)
 
@@ -168,7 +212,7 @@ func main() {
 			defer wg.Done()
 
 			cfg := bfs.Config{
-				System: sn, MaxDepth: d, Deadline: deadline, Workers: workers,
+				System: sn, MaxDepth: maxDepth[sn], Deadline: deadline, Workers: nWorkers[sn],
 				Report: func(system string, hist []string, op string, v bfs.Viol) {
 					var det any
 
@@ -232,6 +276,14 @@ func main() {
 		trans += st.Transitions
 
 		for k, c := range st.Outcomes {
+			if k == "no-links-in-this-world" {
+				// link operands over a base without symbolic links: nothing was executed
+				trans -= c
+				st.Transitions -= c
+
+				continue
+			}
+
 			if strings.HasSuffix(k, "|V") {
 				violTrans += c
 				k = strings.TrimSuffix(k, "|V")
@@ -249,7 +301,7 @@ func main() {
 			exh = false
 		}
 
-		if st.DepthDone < depthDone {
+		if st.DepthDone < depthDone && st.DepthDone < maxDepth[st.System] {
 			depthDone = st.DepthDone
 		}
 
@@ -258,7 +310,7 @@ func main() {
 		}
 
 		fmt.Printf("C10 %s: alphabet=%d (level1=%d level2=%d level3=%d) states=%d transitions=%d depth_completed=%d/%d exhaustive=%v crashes=%d\n",
-			st.System, len(ops), perLevel[1], perLevel[2], perLevel[3], st.States, st.Transitions, st.DepthDone, d, st.Exhaustive, st.WorkerCrashes)
+			st.System, len(ops), perLevel[1], perLevel[2], perLevel[3], st.States, st.Transitions, st.DepthDone, maxDepth[st.System], st.Exhaustive, st.WorkerCrashes)
 
 		// the per-class outcome table is large: keep only its size in the evidence
 		st.Outcomes = map[string]int{"distinct_classes": len(st.Outcomes)}
@@ -306,8 +358,10 @@ func main() {
 	}
 
 	segs := tierSegs(*tier)
-	bound := fmt.Sprintf("histories of length <= %d (completed %d); level 1: full alphabet of %d operations = all strings of <= %d segments over %v, abs/rel, as-is/trailing-slash/doubled-slash x %d single-path calls + %d-string core squared x Rename/Link/Symlink + Getwd + %d fixed Glob patterns + %d strings naming the prefix sibling %s of B x the single-path calls + base.Chdir(d) on the base itself, d in %v, each followed by Getwd, Abs(\"f\"), Stat(\"f\") through the wrapper + through the view sv=Sub(d), d in %v: %d operand strings x the single-path calls and %d operand pairs x Rename/Link/Symlink on sv (level 1 only) + sv.Symlink(t,%q) for %d targets t followed either by Lstat, Stat, ReadFile, ReadDir of the link through the wrapper and Stat, ReadFile through sv, or by WriteFile through the wrapper and through sv (all levels); level k >= 2: Getwd, the Glob patterns, the base.Chdir operations, the Sub-Symlink operations and the operations whose path operands are relative or contain '..' and have <= %v segments (levels 2..): %d operations at level 2, %d at level 3",
-		d, depthDone, perLevel[1], segs[0], segAlphabet, len(singleCalls), len(pairCore), len(fixedGlobs), len(siblingStrings), siblingPath, baseChdirTargets, subDirs, len(subPaths), len(subPairs), subLinkName, len(subLinkTargets), segs[1:], perLevel[2], perLevel[3])
+	bound := fmt.Sprintf("histories of length <= %d (completed %d); level 1: full alphabet of %d operations = all strings of <= %d segments over %v, abs/rel, as-is/trailing-slash/doubled-slash x %d single-path calls + %d-string core squared x Rename/Link/Symlink + Getwd + %d fixed Glob patterns + %d strings naming the prefix sibling %s of B x the single-path calls + base.Chdir(d) on the base itself, d in %v, each followed by Getwd, Abs(\"f\"), Stat(\"f\") through the wrapper + through the view sv=Sub(d), d in %v: %d operand strings x the single-path calls and %d operand pairs x Rename/Link/Symlink on sv (level 1 only) + sv.Symlink(t,%q) for %d targets t followed either by Lstat, Stat, ReadFile, ReadDir of the link through the wrapper and Stat, ReadFile through sv, or by WriteFile through the wrapper and through sv (all levels); + %d strings and %d pairs naming the base-side symbolic links %v + %d strings through the links of the variant out-links (level 1); level k >= 2: Getwd, the Glob patterns, the base.Chdir operations, the Sub-Symlink operations and the operations whose path operands are relative or contain '..' and have <= %v segments (levels 2..): %d operations at level 2, %d at level 3",
+		d, depthDone, perLevel[1], segs[0], segAlphabet, len(singleCalls), len(pairCore), len(fixedGlobs), len(siblingStrings), siblingPath, baseChdirTargets, subDirs, len(subPaths), len(subPairs), subLinkName, len(subLinkTargets), len(linkStrings), len(linkPairs), baseLinks, len(outLinkStrings), segs[1:], perLevel[2], perLevel[3])
+
+	bound += fmt.Sprintf("; variant systems: for every base type the wrapper built with each spelling of B in %v (a relative one from the base's cwd /top) - first level reduced to the %d operations that are not single-path calls on strings of more than 2 segments, next levels only from the states in which the base's cwd has moved to a cleanly spelled directory -, and MemFS+out-links with the links %v in B, first level (same %d operations) only", spellingList(), compactOps(ops), outLinks, compactOps(ops))
 
 	e := ev.Evidence{
 		PropertyID: *id, Tier: *tier, Seed: ev.Seed(), Level: "model_checking",
@@ -337,6 +391,8 @@ func main() {
 			"BasePathFS does not advertise FeatSymlink: for Symlink/Readlink/EvalSymlinks over a MemFS base the reference answer is that of a file system without symbolic links (EPERM, arguments as given, no effect)",
 			"where the reference itself panics or deadlocks on a call (kind note:ref-defect) or cannot address its root (OrefaFS, kind note:ref-root-unaddressable) nothing is demanded of the outcome; the outside-B snapshot and the leak test still apply",
 			"views returned by Sub are obtained and used inside one step (no view survives a step) for d in /a and /; over an OrefaFS base Sub is refused on both sides and nothing follows. A view that does not advertise FeatSymlink is expected to refuse Symlink/Readlink/EvalSymlinks as the wrapper does (EPERM, arguments as given, no effect); otherwise every call through the view, and every later call through the wrapper on what was created through it, must have the outcome and effect of the same call on the reference's Sub view / the reference. A read through the wrapper or a view that returns what the base holds at the place the operand or link target names in the BASE's namespace, outside B (outside the view), is kind outside-read; signatures of these steps have call Sub:<call> or SubLink[W].<sub-call>, path sub:<class> or link:abs|rel,<escape|view-existing|view-missing>, reach inside|above-view|outside-existing|outside-missing",
+			"symbolic links exist only over a MemFS base (OrefaFS has none: the operations naming them are skipped there and not counted); they are made through the base (and through the reference, same target strings) at setup, never between calls; the wrapper itself refuses Symlink/Readlink/EvalSymlinks, so link targets are compared through the node graphs, and the targets printed by the dump of a Sub view are left out",
+			"variant systems share the reference, hence the verdict, of the main ones; their signatures carry variant=basepath:<class> | out-links. In the out-links world the reference holds links with the same target strings, which there name its own namespace (absolute) or stop at its root (climbing), as in a chroot: a call through such a link that the base resolves outside B is kind outside-read / outside-changed (reach outside-via-link when the operand's own path stays in B)",
 			"file handles are exercised inside compound operations (Open/OpenFile, methods, Close): no handle survives a step",
 		},
 		Violations: rep.NewCount(),
@@ -354,6 +410,16 @@ func main() {
 		*tier, states, trans, len(classes), d, depthDone, exh, violTrans, rep.Total, rep.NewCount(), ev.Elapsed())
 
 	os.Exit(code)
+}
+
+func spellingList() []string {
+	var l []string
+
+	for _, sp := range basePathSpellings {
+		l = append(l, sp.Spelling)
+	}
+
+	return l
 }
 
 func countKind(notes map[string]*noteRec, kind string) int {
@@ -395,7 +461,7 @@ func doReplay(file, tier string) int {
 	verifrt.SetMode(verifrt.ModeSeq)
 
 	// a replay may come from the other tier: take the larger alphabet
-	s := &sys{fsName: rf.Replay.System, ops: buildOps("thorough")}
+	s := newSys(rf.Replay.System, buildOps("thorough"), nil)
 	_ = tier
 
 	idx := map[string]int{}
